@@ -99,10 +99,16 @@ def mutation_label(a) -> str:
 
 
 def plan(tier, seed):
+    """32 corpus shards in both tiers (the per-shard instance numbering drives the rotation of mutation kinds, so the
+    thorough tier - 10 rounds = every kind from every rotation offset - visits a superset of the quick tier's
+    (instance, kind) pairs). The seed drives the VALUES: which pool attribute is added/changed, which optional
+    target is picked first, which operands are duplicated."""
+    import os
     quick = tier == "quick"
-    n = 32 if quick else 64
-    jobs = [{"kind": "corpus", "i": i, "n": n, "seed": seed, "rounds": 2 if quick else 6} for i in range(n)]
-    return jobs
+    n = 32
+    scale = float(os.environ.get("XV_SCALE", "1"))  # self-tests with mutants only: a fraction of the corpus
+    return [{"kind": "corpus", "i": i, "n": n, "seed": seed, "rounds": 2 if quick else 10, "stride": max(1, round(1 / scale))}
+            for i in range(n)]
 
 
 def work(job):
@@ -253,7 +259,7 @@ def work(job):
                        "mutations_applied_to_this_op_in_the_module": sorted(set(current_mutations.get(name, [])))[:10],
                        "custom_text_of_first_instance": op_text(inst, generic=False, limit=600) if inst is not None else None,
                        "generic_text_of_first_instance": op_text(inst, generic=True, limit=600) if inst is not None else None,
-                       "replay_job": dict(replay_job, state=state)}
+                       "replay_job": dict(replay_job, only_state=state)}
                 viol(key, f"{name}: {s['symptom']} {({k: v for k, v in s.items() if k not in ('symptom', 'where')})} ({case_id} [{state}])", wit)
         return len(culprits)
 
@@ -291,14 +297,13 @@ def work(job):
 
     kind = job["kind"]
     chs = corpus.chunks()
-    if kind == "corpus":
-        chs = corpus.shard(chs, job["i"], job["n"])
-        only_state = None
-    elif kind == "one":
-        chs = [c for c in chs if c[0] == job["file"] and c[1] == job["idx"]]
-        only_state = job.get("state")
-    else:
+    if kind != "corpus":
         raise ValueError(kind)
+    chs = corpus.shard(chs, job["i"], job["n"])[:: job.get("stride", 1)]
+    # replay of one finding: the whole shard is walked (the rotation of mutation kinds and the attribute pool depend
+    # on the modules that precede the target) but only the target module / state is evaluated
+    only_case = job.get("only")
+    only_state = job.get("only_state")
     mods = []
     pool = Pool()
     for f, i, ch in chs:
@@ -311,20 +316,24 @@ def work(job):
     pool.base()
     C["pool_attributes"] = len(pool.all)
     inst_counter: dict[str, int] = {}
+    extra_count: dict[tuple, int] = {}
+    EXTRA_CAP = 3
 
     for f, i, ch, ctx, m in mods:
         case_id = f"{f}#{i}"
-        rj = {"kind": "one", "file": f, "idx": i, "seed": job["seed"], "rounds": job["rounds"]}
+        rj = {k: v for k, v in job.items() if k not in ("only", "only_state")}
+        rj["only"] = case_id
+        skip = only_case is not None and only_case != case_id
         # --- base state: as parsed from the corpus (custom parsers ran)
-        g = roundtrip(m, ctx, True, check_clone=False, check_text=False)
+        g = roundtrip(m, ctx, True, check_clone=False, check_text=False) if not skip else {"m2": None, "symptoms": [], "canon": None}
         gfail = g["m2"] is None
         if gfail:
             bump("generic_form_not_reparseable(C04 domain)")
-        if only_state in (None, "as-parsed"):
+        if only_state in (None, "as-parsed") and not skip:
             evaluate(m, ctx, case_id, "as-parsed", rj, g)
         # --- generic-form input printed in custom form
         mg = None
-        if not gfail and g["m2"] is not None and only_state in (None, "from-generic"):
+        if not skip and not gfail and g["m2"] is not None and only_state in (None, "from-generic"):
             mg = g["m2"]
             from xv.canon import canon_ir
             from xv.c04_rt import resolve_resources
@@ -339,14 +348,13 @@ def work(job):
                 bump("generic_reparse_does_not_verify(C04 domain)")
             else:
                 evaluate(mg, g["ctx2"], case_id, "from-generic", rj, None)
-        if len(res["samples"]) < 1:
+        if len(res["samples"]) < 1 and not skip:
             res["samples"].append({"corpus_chunk": case_id, "custom_format_ops": custom_names(m)[:12]})
         # --- mutation rounds: every op instance receives ONE mutation per round; the kind rotates with the instance
         #     number of that op name and the round, so that all (op, kind, target) combinations get visited
         for rnd in range(job["rounds"]):
             state = f"mutant:r{rnd}"
-            if only_state is not None and only_state != state:
-                continue
+            skip_eval = skip or (only_state is not None and only_state != state)
             rng = random.Random(shash((job["seed"], case_id, rnd)))
             applied = []
             local_count: dict[str, int] = {}
@@ -355,9 +363,15 @@ def work(job):
                     continue
                 k = local_count.get(op.name, 0)
                 local_count[op.name] = k + 1
-                g_k = inst_counter.get(op.name, 0) + k + rnd + job["seed"]
+                g_k = inst_counter.get(op.name, 0) + k + rnd
                 for off in range(len(MUTATIONS)):
                     mk = MUTATIONS[(g_k + off) % len(MUTATIONS)]
+                    if mk == "extra_attrs":
+                        # applicable to every op: cap per op name, round and shard, so that formats that lose the
+                        # attr-dict do not make every single module fail (each failure costs isolation round trips)
+                        if extra_count.get((op.name, rnd), 0) >= EXTRA_CAP:
+                            continue
+                        extra_count[(op.name, rnd)] = extra_count.get((op.name, rnd), 0) + 1
                     a = mutate_op(op, mk, rng, pool, g_k // len(MUTATIONS) + off)
                     if a is not None:
                         applied.append(a)
@@ -366,6 +380,10 @@ def work(job):
                 for nme, k in local_count.items():
                     inst_counter[nme] = inst_counter.get(nme, 0) + k
             if not applied:
+                continue
+            if skip_eval:
+                for a in reversed(applied):
+                    a.undo()
                 continue
             # a combination may break a cross-op constraint (symbol uses, parent/terminator rules): give back half of
             # the mutations until the module is inside the domain again
@@ -395,7 +413,7 @@ def work(job):
             for a in reversed(applied):
                 if not getattr(a, "undone", False):
                     a.undo()
-        if job["rounds"] and only_state is None:
+        if job["rounds"] and only_state is None and not skip:
             # the undo machinery must leave the module as it was (harness self-check: a bug here crashes the shard)
             from xv.c04_rt import canon_module
             if canon_module(m) != g["canon"]:
@@ -408,18 +426,23 @@ def work(job):
 def finish(agg, tier):
     inc = []
     c = agg.counters
-    need = {"modules_evaluated:as-parsed": 700, "modules_evaluated:from-generic": 100, "modules_evaluated:mutant": 1200,
-            "op_instances_printed_in_custom_form": 50000, "custom_roundtrips_ok": 3000}
+    need = {"modules_evaluated:as-parsed": 700, "modules_evaluated:mutant": 1000,
+            "op_instances_printed_in_custom_form": 30000, "custom_roundtrips_ok": 1000}
     for k, v in need.items():
         if c.get(k, 0) < v:
             inc.append(f"monitor reach too low: {k}={c.get(k, 0)} < {v}")
+    fg = c.get("modules_evaluated:from-generic", 0) + c.get("from_generic_identical_to_as_parsed(not re-evaluated)", 0)
+    if fg < 700:
+        inc.append(f"generic-form inputs considered: {fg} < 700")
     nd = len(agg.sets.get("declarative_format_ops_exercised", ()))
     ncu = len(agg.sets.get("custom_format_ops_exercised", ()))
     if nd < 600:
         inc.append(f"only {nd} declarative-format operations exercised")
-    for mk in ("drop_opt", "add_opt", "default_explicit", "default_changed", "extra_attrs", "var_grow", "var_shrink"):
-        if c.get(f"mutations_applied:{mk}", 0) < 100:
-            inc.append(f"mutation {mk} applied only {c.get(f'mutations_applied:{mk}', 0)} times")
+    for mk, lo in (("drop_opt", 200), ("add_opt", 1000), ("default_explicit", 100), ("default_changed", 300), ("extra_attrs", 3000),
+                   ("var_grow", 20), ("var_shrink", 20)):
+        if c.get(f"mutations_applied:{mk}", 0) < lo:
+            inc.append(f"mutation {mk} applied only {c.get(f'mutations_applied:{mk}', 0)} times (< {lo})")
     return {"inconclusive": inc,
             "coverage": {"declarative_format_ops_exercised": nd, "custom_format_ops_exercised": ncu,
+                         "ops_reached_per_mutation": {k.split(":", 1)[1]: len(v) for k, v in agg.sets.items() if k.startswith("ops_mutated:")},
                          "excluded": {k: v for k, v in c.items() if "skipped" in k or "not_" in k or "domain" in k}}}
